@@ -20,7 +20,9 @@ def c17(ctx: Ctx):
         "TLC and the CommunityModules Json/CSV modules",
         "spec/Api23.tla as the reading of 'the API a document describes' (normal form of operations, parameters, bodies, responses, "
         "definitions, security; servers separately); titles, non-response descriptions, examples, tags, extensions, collectionFormat, "
-        "allowEmptyValue and response media types are not part of it; an operation without consumes accepts any media type",
+        "allowEmptyValue and response media types are not part of it; an operation without consumes accepts any media type; x-nullable on a "
+        "parameter object may come out as schema.nullable or as the kept extension; a converter must leave the document it is given unchanged "
+        "(input marshalled again after the call = input marshalled before)",
         "harness/c17.go renders the TLC-built document as JSON text and projects json.Marshal of the library's documents back to "
         "tagged JSON mechanically; the document as the library re-marshals it (rd) is compared with the case by TLC",
         "universe = spec/V2Universe.tla: fixed skeleton (GET /a, POST /b, definitions.Pet) plus sets of feature atoms; schemes without "
